@@ -1,6 +1,8 @@
 (* C07 -- loops, conditionals, macros, constants, scopes and imports mean their expansion.
-   Statements about one pass of the model from an arbitrary context (the building blocks of `image p = image (expand p)`;
-   the whole-program equality, const substitution and imports are decided on the implementation by the expansion oracle). *)
+   Per construct: statements about one pass of the model from an arbitrary context.  Whole programs: four theorems
+   (C07_whole_program_partial, _stable_conditions, _const, _if_diagnostics); the remaining gap -- macro invocation and
+   import expansion at whole-program level, constants with non-closed definitions, `.loop` expansion in runs with
+   diagnostics -- is named at C07_whole_program_partial and decided on the implementation by the expansion oracle. *)
 From Coq Require Import List NArith ZArith Bool PeanoNat.
 Import ListNotations.
 From Mos Require spec.Relayout spec.Expand.
@@ -91,10 +93,16 @@ Print Assumptions C07_changed_not_reported.
    nesting depth inside blocks, labelled blocks, `.if` branches, loop bodies and segment blocks, the remaining statements
    unchanged -- a program that assembles without a diagnostic in any pass (codegen_ok) and its expansion run through the
    same sequence of passes and end with the same symbol table and the same segment images (the expansion with one more
-   unit of fuel).  What remains partial: conditions / counts that depend on symbols (the two programs then need not run
-   the same passes), runs with transient diagnostics (a diagnostic ends a loop early but not a sequence of blocks), and
-   the macro / constant / import expansions, whose tables differ from the original's (extra `-` `+` symbols and labels):
-   for those the per-construct theorems above and below hold and the equality of images is decided by the oracle. *)
+   unit of fuel).  Extensions proved below: conditions / counts that depend on symbols (_stable_conditions), constants
+   (_const), runs with transient diagnostics for `.if` (_if_diagnostics).  THE REMAINING GAP (why `_partial` stays):
+   (1) macro-invocation and import expansion: the expansion adds symbol-graph nodes (`-` `+` of the block, the label of
+   `imp: {..}`, Constant for MacroArgument) and drops others (`$macro_<n>`), so node indices, slot reuse and the node
+   count read by the stop rule differ -- equality of contexts is lost and an injection between the two graphs, preserved
+   by add_symbol / bubbling lookup / export, would be needed; per construct C07_macro and C07_import_* hold;
+   (2) constants whose definition is not closed after substitution (labels, `*`); (3) conditions whose value differs
+   between passes -- there the statement is false (include-guard idiom, finding Known_stale_symbol_survives);
+   (4) `.loop` expansion in runs with diagnostics -- false as stated: a diagnostic ends a loop early but not a sequence
+   of blocks.  For (1), (2) the equality of images is decided by the oracle. *)
 Theorem C07_whole_program_partial : forall p p' passes F o cf,
   Xp p p' -> codegen_ok passes F o p = Some cf ->
   codegen passes F o p = Done cf /\
@@ -116,6 +124,22 @@ Theorem C07_whole_program_stable_conditions : forall chi p p' passes F o cf,
 Proof. exact whole_program_stable_chk. Qed.
 Print Assumptions C07_whole_program_stable_conditions.
 
+(* WHOLE PROGRAMS, constants (C07_whole_program_const).  XpC replaces, in operands, `.byte`/`.word` data, `* =`, `.align` and
+   the right-hand sides of `.const`/`.var`, an expression e by a closed expression e' with the same span -- what the
+   substitution of constants by their parenthesised definitions (C07_const_subst, C07_const_subst_oracle) yields when the
+   definitions are literal, transitively -- provided e is string-free and chi e is the value of e'; the definitions stay,
+   so both programs build the same table.  With the same per-pass check as above (every evaluation of such an e gave that
+   value, in every pass -- this is what rules out a use before the definition, where the original would see "unknown" in
+   the first pass and the substituted program would not), the two programs run through the same passes and end with the
+   same table and images.  Not covered: definitions that are not closed after substitution (labels, `*`), and uses
+   inside macro bodies / invocations' arguments. *)
+Theorem C07_whole_program_const : forall chi p p' passes F o cf,
+  XpC chi p p' -> codegen_okc (chk_of chi) passes F o p = Some cf ->
+  codegen passes F o p = Done cf /\
+  exists cf', codegen passes (S F) o p' = Done cf' /\ E cf cf' /\ segment_image cf = segment_image cf' /\ symbols cf = symbols cf'.
+Proof. exact whole_program_const. Qed.
+Print Assumptions C07_whole_program_const.
+
 (* WHOLE PROGRAMS, runs with diagnostics (C07_whole_program_if_diagnostics).  For the expansion XpI of `.if`s with a closed
    condition (at any nesting depth inside blocks, labelled blocks, kept loops and segment blocks) NO assumption on the run
    is needed: statement by statement the expansion has the same outcome -- value, diagnostics in the same order, context --
@@ -130,12 +154,7 @@ Theorem C07_whole_program_if_diagnostics : forall p p' passes F o,
   | Failed errs cf => exists cf', codegen passes (S F) o p' = Failed errs cf' /\ E cf cf'
   | Aborted _ => True
   end.
-Proof.
-  intros p p' passes F o X. pose proof (whole_program_if p p' passes F o X) as R.
-  destruct (codegen passes F o p) as [cf|errs cf|f]; [|exact R|exact I].
-  destruct R as (cf' & H' & HE). exists cf'. split; [exact H'|]. split; [exact HE|].
-  unfold E, core in HE. inversion HE. unfold segment_image. split; congruence.
-Qed.
+Proof. exact whole_program_if_result. Qed.
 Print Assumptions C07_whole_program_if_diagnostics.
 
 (* fuel is only a bound: a statement that does not run out of fuel does the same with more fuel *)
@@ -293,4 +312,25 @@ Proof.
     + cbn. apply XpI_keep. apply XpI_nil.
     + apply XpI_nil.
   - eexists. eexists. eexists. vm_compute. repeat split. discriminate.
+Qed.
+
+(* constants: `.const K = 2` / `lda K` / `.byte K` against `.const K = 2` / `lda (2)` / `.byte (2)` *)
+Definition use_K (a b : Z) : lexpr := mkL (EId [t_K] None false false) (sp a b) [sp a b].
+Definition sub_K (a b : Z) : lexpr := mkL (EParens (ENum 10 [50%N] false false) false false) (sp a b) [sp a b].
+Definition prog_use_K : list token := [ const_K; TInstr Lda (sp 30 33) (Some (use_K 34 35, Isa.FAbs)); TData 1 [use_K 42 43] ].
+Definition prog_sub_K : list token := [ const_K; TInstr Lda (sp 30 33) (Some (sub_K 34 35, Isa.FAbs)); TData 1 [sub_K 42 43] ].
+Lemma esub_K a b : esub chi_K (use_K a b) (sub_K a b).
+Proof.
+  split; [reflexivity|]. exists 2. split; [right; split; reflexivity|].
+  split; [reflexivity|split; [reflexivity|intro en; reflexivity]].
+Qed.
+Example C07_example_const :
+  XpC chi_K prog_use_K prog_sub_K /\
+  exists c c', codegen_okc (chk_of chi_K) 10 10 default_options prog_use_K = Some c /\
+               codegen 10 11 default_options prog_sub_K = Done c' /\ map snd (segment_image c') = [[165; 2; 2]%N].
+Proof.
+  split.
+  - unfold prog_use_K, prog_sub_K. apply XpC_keep. apply XpC_instr; [apply esub_K|].
+    apply XpC_data; [constructor; [apply esub_K|constructor]|apply XpC_nil].
+  - eexists. eexists. vm_compute. repeat split.
 Qed.
